@@ -34,6 +34,8 @@ def single_defs(func: ast.AST) -> Dict[str, ast.expr]:
             defs[n.targets[0].id] = n.value
         if isinstance(n, ast.AnnAssign) and isinstance(n.target, ast.Name) and n.value is not None:
             defs[n.target.id] = n.value
+        if isinstance(n, ast.NamedExpr) and isinstance(n.target, ast.Name):
+            defs[n.target.id] = n.value          # `(name := expr)` in a test or a loop header binds the name just as `name = expr` does
     return {k: v for k, v in defs.items() if counts.get(k) == 1}
 
 
@@ -350,6 +352,9 @@ def expand(expr: ast.AST, defs: Dict[str, ast.expr], depth: int = 8) -> ast.AST:
             if isinstance(node.ctx, ast.Load) and node.id in defs and self.d > 0:
                 return T(self.d - 1).visit(fresh(defs[node.id]))
             return node
+
+        def visit_NamedExpr(self, node):
+            return self.visit(node.value)        # as a value, `(name := expr)` is `expr`
 
     return T(depth).visit(fresh(expr))
 
@@ -1767,6 +1772,10 @@ class MiniEval:
             return set(out) if isinstance(n, ast.SetComp) else out
         if isinstance(n, ast.Lambda):
             return _Closure(n, env, self._cls_stack[-1] if self._cls_stack else None)
+        if isinstance(n, ast.NamedExpr):
+            v = self.expr(n.value, env)
+            self.store(n.target, v, env)
+            return v
         if isinstance(n, ast.Call):
             return self.call(n, env)
         if isinstance(n, ast.Yield):
